@@ -31,7 +31,7 @@ Theorem two_way_exactly_one q :
 Proof.
   intros Hh Ho. unfold process. rewrite Hh.
   destruct (find (q_path q) (q_meth q)); rewrite ?Ho.
-  - destruct (handler (q_path q) (q_meth q) (q_args q)); [destruct (codec_ok (q_ser q))| |];
+  - destruct (handler (q_path q) (q_meth q) (q_args q)); [destruct (codec_ok (q_ser q))| | |];
       eexists; (split; [reflexivity|repeat split]).
   - eexists; (split; [reflexivity|repeat split]).
   - eexists; (split; [reflexivity|repeat split]).
@@ -61,7 +61,7 @@ Definition failure_text (q : sreq) : option etext :=
   | TNoMethod => Some (XNoMethod (q_meth q))
   | TRouter =>
     match handler (q_path q) (q_meth q) (q_args q) with
-    | HFail t => Some (XExact t)
+    | HFail t | HVeto t => Some (XExact t)
     | HPanic v => Some (XPanicExact v)
     | HReply _ => if codec_ok (q_ser q) then None else Some (XNoCodec (q_ser q))
     end
@@ -69,7 +69,7 @@ Definition failure_text (q : sreq) : option etext :=
     if negb (codec_ok (q_ser q)) then Some (XNoCodec (q_ser q))
     else if negb (decodable (q_ser q) (q_args q)) then Some (XDecode (q_ser q) (q_args q))
     else match handler (q_path q) (q_meth q) (q_args q) with
-         | HFail t => Some (XExact t)
+         | HFail t | HVeto t => Some (XExact t)
          | HPanic v => Some (XPanic v)
          | HReply _ => None
          end
@@ -84,7 +84,7 @@ Theorem failures_are_reported q r :
 Proof.
   intros Hh Ho. unfold process, failure_text. rewrite Hh.
   destruct (find (q_path q) (q_meth q)); rewrite ?Ho.
-  - destruct (handler (q_path q) (q_meth q) (q_args q)); [destruct (codec_ok (q_ser q))| |];
+  - destruct (handler (q_path q) (q_meth q) (q_args q)); [destruct (codec_ok (q_ser q))| | |];
       intros H; injection H as <-; split; reflexivity.
   - intros H; injection H as <-; split; reflexivity.
   - intros H; injection H as <-; split; reflexivity.
@@ -101,7 +101,9 @@ Qed.
 Definition handler_ran (q : sreq) : bool :=
   match find (q_path q) (q_meth q) with
   | TRouter => true
-  | TMethod | TFunction => codec_ok (q_ser q) && decodable (q_ser q) (q_args q)
+  | TMethod | TFunction =>
+    codec_ok (q_ser q) && decodable (q_ser q) (q_args q) &&
+    match handler (q_path q) (q_meth q) (q_args q) with HVeto _ => false | _ => true end
   | _ => false
   end.
 
@@ -111,7 +113,7 @@ Theorem response_metadata_is_the_handlers q r :
 Proof.
   intros Hh Ho. unfold process, handler_ran. rewrite Hh.
   destruct (find (q_path q) (q_meth q)); rewrite ?Ho.
-  - destruct (handler (q_path q) (q_meth q) (q_args q)); [destruct (codec_ok (q_ser q))| |];
+  - destruct (handler (q_path q) (q_meth q) (q_args q)); [destruct (codec_ok (q_ser q))| | |];
       intros H; injection H as <-; reflexivity.
   - intros H; injection H as <-; reflexivity.
   - intros H; injection H as <-; reflexivity.
@@ -121,6 +123,27 @@ Proof.
   - unfold handle_reflected. destruct (codec_ok (q_ser q)); cbn [negb andb]; [|intros H; injection H as <-; reflexivity].
     destruct (decodable (q_ser q) (q_args q)); cbn [negb]; [|intros H; injection H as <-; reflexivity].
     destruct (handler (q_path q) (q_meth q) (q_args q)); intros H; injection H as <-; reflexivity.
+Qed.
+
+(* a request whose arguments a PreCall plugin refuses (reflected methods and registered functions) runs no handler and
+   is answered - exactly once, if two-way - with the plugin's own text *)
+Theorem precall_refusal_runs_no_handler q t :
+  q_hb q = false -> (find (q_path q) (q_meth q) = TMethod \/ find (q_path q) (q_meth q) = TFunction) ->
+  handler (q_path q) (q_meth q) (q_args q) = HVeto t ->
+  snd (process q) = [] /\
+  (q_oneway q = false -> codec_ok (q_ser q) = true -> decodable (q_ser q) (q_args q) = true ->
+   fst (process q) = [err_resp q (XExact t)]).
+Proof.
+  intros Hh Hf Hv. unfold process. rewrite Hh.
+  assert (Hr : snd (handle_reflected q) = [] /\
+               (codec_ok (q_ser q) = true -> decodable (q_ser q) (q_args q) = true ->
+                fst (handle_reflected q) = err_resp q (XExact t))).
+  { unfold handle_reflected. destruct (codec_ok (q_ser q)); cbn [negb]; [|split; [reflexivity|discriminate]].
+    destruct (decodable (q_ser q) (q_args q)); cbn [negb]; [|split; [reflexivity|discriminate]].
+    rewrite Hv. split; reflexivity. }
+  destruct Hr as [Hr1 Hr2].
+  destruct Hf as [-> | ->]; destruct (handle_reflected q) as [r inv]; cbn [fst snd] in *; subst inv;
+    (split; [destruct (q_oneway q); reflexivity|]); intros Ho Hc Hd; rewrite Ho, (Hr2 Hc Hd); reflexivity.
 Qed.
 
 (* ---- connections ---- *)
